@@ -828,7 +828,9 @@ def orderJoins (db : DB) : Nat → JoinMap → List (String × List String) → 
   | _, [], joins, _ => .ok joins
   | 0, _ :: _, _, _ => .error .fuel
   | n+1, jm@(_ :: _), joins, jk =>
-    match jm.find? (fun p => joins.isEmpty || intersects jk p.2) with
+    -- `joined_keys.intersection(keymap[rel])`: the KEY columns of the candidate decide (commit e207678, finding F58;
+    -- before the fix every requested column of the candidate counted)
+    match jm.find? (fun p => joins.isEmpty || intersects jk (keyNamesOf db p.1)) with
     | none => .error .tsqlError
     | some p => orderJoins db n (jm.erase p) (joins ++ [p]) (jk ++ keyNamesOf db p.1)
 
@@ -860,10 +862,18 @@ def planJoins (db : DB) (projection condFs : List QName) (rels : List String) : 
 
 /-- keys of `_field_index`: an unqualified column name or the text `rel.col`.  Identifiers of
 the query language and of the generated schemas contain no `.`, so the two kinds never collide
-and `rel.col` determines `rel` and `col`; the model keeps them apart structurally. -/
+and `rel.col` determines `rel` and `col`; the model keeps them apart structurally.
+
+`k col` is the entry of `Selection._key_index` (commit 14dfce4, finding F59): the unqualified name of
+a key column ↦ the FIRST joined KEY column so named.  Python stores that column's qualified name
+`rel.col` and reads its position through `_field_index[rel.col]`; the model stores the position itself,
+resolved when the entry is made.  The two agree because the qualified entries of a joined relation are
+never reassigned afterwards (a relation is joined once, and `_merge_fields` writes only entries of the
+relation it is merging; column names of a relation are distinct: `DB.wf`). -/
 inductive Key where
   | u (col : String)
   | q (rel col : String)
+  | k (col : String)
 deriving Repr, DecidableEq
 
 structure Sel where
@@ -890,15 +900,17 @@ def dictSet {α} (d : List (Key × α)) (k : Key) (v : α) : List (Key × α) :=
 def dictAdd {α} (d : List (Key × α)) (k : Key) (v : α) : List (Key × α) :=
   if (dictGet d k).isSome then d else d ++ [(k, v)]
 
-/-- the first loop of `_merge_fields`, one field -/
+/-- the first loop of `_merge_fields`, one field: the unqualified name if it is new, the qualified name,
+and — for a key field whose name has no key entry yet — the key entry -/
 def mergeStep (relname : String) (offset : Nat) (ix : List (Key × Nat)) (p : Field × Nat) : List (Key × Nat) :=
-  dictSet (dictAdd ix (.u p.1.name) (offset + p.2)) (.q relname p.1.name) (offset + p.2)
+  let ix1 := dictSet (dictAdd ix (.u p.1.name) (offset + p.2)) (.q relname p.1.name) (offset + p.2)
+  if p.1.isKey then dictAdd ix1 (.k p.1.name) (offset + p.2) else ix1
 
 def mergeFields (sel : Sel) (relname : String) (on : List String) (fields : List Field) : Sel :=
   let offset := sel.fields.length
   let index1 := fields.zipIdx.foldl (mergeStep relname offset) sel.index
   let index2 := on.foldl
-    (fun ix name => match dictGet ix (.u name) with
+    (fun ix name => match dictGet ix (.k name) with
       | some i => dictSet ix (.q relname name) i
       | none => ix) index1
   { fields := sel.fields ++ fields, index := index2, data := sel.data, joined := sel.joined ++ [relname] }
@@ -928,10 +940,11 @@ def hashJoin {α β γ κ} [DecidableEq κ] (L : List α) (R : List β) (kl : α
 
 def keyOf (idxs : List Nat) (row : List Cell) : List Val := (pick idxs row).map (·.val)
 
-/-- `on` of `_join`: the key columns of the new relation whose (unqualified) name is already a
-column name of the selection -/
+/-- `on` of `_join`: the key columns of the new relation whose (unqualified) name is the name of a KEY
+column already in the selection (`f.name in selection._key_index`; before commit 14dfce4 any column of
+that name counted) -/
 def sharedKeys (sel : Sel) (fields : List Field) : List String :=
-  (fields.filter (fun f => f.isKey && (dictGet sel.index (.u f.name)).isSome)).map (·.name)
+  (fields.filter (fun f => f.isKey && (dictGet sel.index (.k f.name)).isSome)).map (·.name)
 
 def joinStep (db : DB) (sel : Sel) (j : String × List String) : Except Err Sel :=
   if sel.joined.contains j.1 then .error .tsqlError else
@@ -950,7 +963,7 @@ def joinStep (db : DB) (sel : Sel) (j : String × List String) : Except Err Sel 
         if on.isEmpty then .error .tsqlError else
         let rK := on.filterMap rel.fieldIdx?
         let rV := fields'.filterMap (fun f => rel.fieldIdx? f.name)
-        let lK := on.filterMap (fun n => dictGet sel.index (.u n))
+        let lK := on.filterMap (fun n => dictGet sel.index (.k n))
         let data := hashJoin sel.data rel.rows (keyOf lK) (keyOf rK) (fun l r => l ++ pick rV r)
         .ok (mergeFields { sel with data := data } j.1 on fields')
 
